@@ -219,6 +219,8 @@ def scenarios(tier, seed):
             [M.permuted(s, "derived", -1)] if len(s.get("derived", [])) >= 2 else [])
         for o in orders:
             scs.append(Sym(o))
+    if tier != "quick":
+        scs += [Sym(g) for g in M.grammar_shapes(with_surrogates=False)]
     jac_specs = [s for s in base if s["name"] in ("chain2", "mm_moiety", "lib_mm_rev", "untouched", "time_dep", "frac_coef")]
     for s in jac_specs:
         for method in ("LSODA", "BDF", "Radau"):
